@@ -185,6 +185,23 @@ def other_paths(chk):
                         chk.nontrivial(('scalar', n, type(obj).__name__))
                 except Exception as ex:
                     chk.violation('scalar / array broadcast raised %r' % ex, {'rows': n, 'type': type(obj).__name__}, part='scalar')
+        # a Series signal (parameter vector) against array-likes of one, two and three values: a Series of that length and one row per value
+        vec = pd.Series({'k_1': 7.0, 'SD': 300.0, 'ND': 1e6})
+        vec0 = vec.copy(deep=True)
+        for arr in ([7.0], np.array([7.0]), [1.0, 2.0], np.array([3.0, 4.0, 5.0])):
+            chk.evals(1)
+            try:
+                prm, ro = Broadcaster(vec).broadcast(arr)
+                m = len(arr)
+                ok = isinstance(prm, pd.Series) and len(prm) == m and list(prm) == [float(x) for x in arr] and isinstance(ro, pd.DataFrame) and len(ro) == m \
+                    and all((ro[c] == vec[c]).all() for c in vec.index) and same_frame(vec, vec0)
+                if not ok:
+                    chk.violation('a Series signal broadcast against an array-like of %d value(s) does not give a Series of that length and one row per value' % m, {'parameter': [float(x) for x in arr]},
+                                  {'parameter_length': m, 'object_rows': m}, {'parameter': repr(prm)[:80], 'object_shape': getattr(ro, 'shape', None)}, part='scalar')
+                else:
+                    chk.nontrivial(('series-vs-array', m, type(arr).__name__))
+            except Exception as ex:
+                chk.violation('Series signal x array-like raised %r' % ex, {'parameter': [float(x) for x in arr]}, part='scalar')
         # unnamed single-level Series = parameter vector: one column per entry, one row per parameter key
         pv = pd.Series({'k_1': 7.0, 'SD': 300.0, 'ND': 1e6})
         pv0 = pv.copy(deep=True)
@@ -260,6 +277,33 @@ def other_paths(chk):
             if not same_frame(cv, cv0):
                 chk.violation('downstream calculation modified the curves', {}, part='downstream')
             chk.nontrivial(('downstream', 'woehler-pf'))
+            # mean stress sensitivities per (element_id, material) (a two-level index) against collectives per cycle / per (element_id, cycle)
+            import pylife.strength.meanstress as MST
+            sens = pd.DataFrame({'M': [0.3, 0.5, 0.2, 0.4], 'M2': [0.1, 0.5, 0.0, 0.2]},
+                                index=pd.MultiIndex.from_tuples([(1, 'st'), (1, 'al'), (2, 'st'), (2, 'al')], names=['element_id', 'material']))
+            collA = pd.DataFrame({'range': [200.0, 300.0], 'mean': [50.0, -40.0]}, index=pd.Index([0, 1], name='cycle'))
+            collB = pd.DataFrame({'range': [200.0, 300.0, 120.0, 80.0], 'mean': [50.0, -40.0, 10.0, 90.0]},
+                                 index=pd.MultiIndex.from_tuples([(1, 0), (1, 1), (2, 0), (2, 1)], names=['element_id', 'cycle']))
+            s0, a0, b0 = sens.copy(deep=True), collA.copy(deep=True), collB.copy(deep=True)
+            for label, coll in (('per cycle', collA), ('per (element_id, cycle)', collB)):
+                res = coll.meanstress_transform.fkm_goodman(sens, -1.0).amplitude
+                want_rows = 8
+                if set(res.index.names) != {'element_id', 'material', 'cycle'} or len(res) != want_rows:
+                    chk.violation('mean stress transformation with sensitivities per (element_id, material) and a collective %s: result index is not (element_id, material, cycle) with one row per combination' % label,
+                                  {'result_levels': [str(n) for n in res.index.names], 'rows': len(res)}, ['element_id', 'material', 'cycle', want_rows], None, part='downstream')
+                    continue
+                for key, amp_got in res.items():
+                    k = dict(zip(res.index.names, key))
+                    src = coll.loc[k['cycle']] if label == 'per cycle' else coll.loc[(k['element_id'], k['cycle'])]
+                    ms = sens.loc[(k['element_id'], k['material'])]
+                    chk.evals(1)
+                    want = float(MST.fkm_goodman(np.array([src['range'] / 2.0]), np.array([src['mean']]), ms.M, ms.M2, -1.0)[0])
+                    if not np.isclose(amp_got, want, rtol=1e-12):
+                        chk.violation('mean stress transformation with per-(element, material) sensitivities: a row differs from the scalar function for its own key', {'key': {a: (int(b) if not isinstance(b, str) else b) for a, b in k.items()}, 'collective': label}, want, float(amp_got), part='downstream')
+                        break
+            if not (same_frame(sens, s0) and same_frame(collA, a0) and same_frame(collB, b0)):
+                chk.violation('mean stress transformation modified its operands', {}, part='downstream')
+            chk.nontrivial(('downstream', 'meanstress-multiindex-sensitivities'))
         except Exception as ex:
             chk.violation('downstream calculation raised %r' % ex, {}, part='downstream')
 
